@@ -396,6 +396,24 @@ impl MessageType for ResponseHead {
         // convert headers
         let mut length = msg.set_headers(&src.split_to(len).freeze(), &headers[..h_len], ver)?;
 
+        // an `Upgrade: websocket` header on a response other than 101 only advertises the
+        // protocol; the body is framed by Content-Length as usual
+        if matches!(length, PayloadLength::UpgradeWebSocket)
+            && status != StatusCode::SWITCHING_PROTOCOLS
+        {
+            length = match msg
+                .headers
+                .get(header::CONTENT_LENGTH)
+                .and_then(|v| v.to_str().ok())
+                .and_then(|v| v.trim().parse::<u64>().ok())
+            {
+                Some(len) => {
+                    PayloadLength::Payload(PayloadType::Payload(PayloadDecoder::length(len)))
+                }
+                None => PayloadLength::None,
+            };
+        }
+
         // Remove CL value if 0 now that all headers and HTTP/1.0 special cases are processed.
         // Protects against some request smuggling attacks.
         // See https://github.com/actix/actix-web/issues/2767.
